@@ -148,6 +148,58 @@ def live_variants(r, prog: dict, post_body):
     return out
 
 
+# ------------------------------------------------------------------ one cached template, several creates
+
+SECOND_PARENT = {"apiVersion": "koreo.dev/v1", "kind": "Trigger", "name": "second-parent", "uid": "uid-parent-2",
+                 "blockOwnerDeletion": True, "controller": False}
+
+
+def shared_template_case(r) -> dict:
+    """2-3 functions (owning / not owning, parents in the same / another namespace, different parents) that all
+    render their object from the SAME cached ResourceTemplate, which lists owners of its own; created one after
+    the other in one process without the cache being reset"""
+    namespaced = r.random() < 0.8
+    listed = r.choice(([g.THIRD_REF], [g.THIRD_REF, g.OTHER_REF], [g.STALE_PARENT_REF]))
+    v = g.dirty_value(r, force_directive=True)
+    tmpl = g.tree_merge(g.node(spec=g.node(shared=g.value_tree(r, v if isinstance(v, dict) else {"val": v}, 0.0))),
+                        g.node(metadata=g.node(ownerReferences=g.leaf(copy.deepcopy(listed)))))
+    progs = []
+    for i in range(r.choice((2, 3, 3))):
+        p = {"prefix": PREFIX, "namespaced": namespaced, "tmplForm": "ref", "edits": [], "benign": [],
+             "extra": {"template": copy.deepcopy(tmpl)}, "name": f"obj-{i}",
+             "flags": {"owned": (i == 0) or r.random() < 0.5, "policy": "patch"},
+             "expectOwnerUids": [x["uid"] for x in listed], "stored": None}
+        if i > 0:
+            how = r.choice(("same-parent", "other-parent", "parent-elsewhere", "not-owning"))
+            if how == "other-parent":
+                p["ownerRef"] = copy.deepcopy(SECOND_PARENT)
+            elif how == "parent-elsewhere":
+                p["ownerNs"] = "elsewhere"
+            elif how == "not-owning":
+                p["flags"]["owned"] = False
+        if not namespaced:
+            p["ownerNs"] = None if (i == 0 or r.random() < 0.5) else "ns1"
+        progs.append(p)
+    return {"shared": progs}
+
+
+def run_shared_template(case: dict) -> list:
+    """every function prepared (the template is cached ONCE), then each creates its object, in order"""
+    progs = copy.deepcopy(case["shared"])
+    builds = g.prepare_all_reconcile_some(progs, list(range(len(progs))))
+    for i, p in enumerate(progs):
+        p["sharedSequence"] = {"case": copy.deepcopy(case), "index": i}   # a violation names the whole sequence
+    return list(zip(progs, builds))
+
+
+def shared_bad(case: dict):
+    for q, b in run_shared_template(case):
+        bad = oracle(q, b)
+        if bad:
+            return bad[0], f"object #{q['sharedSequence']['index'] + 1} rendered from the one cached template: {bad[1]}"
+    return None
+
+
 # ------------------------------------------------------------------ oracle
 
 def split_annotation(body):
@@ -176,11 +228,20 @@ def should_own(prog: dict, b: dict) -> bool:
     return bool(prog["flags"].get("owned", True)) and b["owner"][0] == b["ns"]
 
 
+def parent_uid(prog: dict) -> str:
+    return prog.get("ownerRef", g.OWNER_REF)["uid"]
+
+
 def oracle(prog: dict, b: dict) -> tuple[str, str] | None:
     """(clause, description) of the first C08 clause the run breaks, None if none"""
     obs = b["obs"]
     if not obs["prepared"]:
         return None
+    PARENT_UID = parent_uid(prog)
+    muts = [e for e in g.log_view(obs["cluster"]) if e["method"] != "GET"]
+    if prog.get("fault") is not None and len(muts) > 1:
+        return "rejected-mutation", (f"the server answered the {muts[0]['method']} with {prog['fault']}, yet "
+                                     f"{[e['method'] for e in muts[1:]]} followed")
     for e in g.log_view(obs["cluster"]):
         if e["method"] not in ("POST", "PATCH"):
             continue
@@ -202,6 +263,12 @@ def oracle(prog: dict, b: dict) -> tuple[str, str] | None:
                                   f"{g.dumps(parsed)[:300]} vs {g.dumps(without)[:300]}")
         own = should_own(prog, b)
         listed = target_specifies_owner_refs(prog)
+        if e["method"] == "POST" and prog.get("expectOwnerUids") is not None:
+            want_uids = list(prog["expectOwnerUids"]) + \
+                ([PARENT_UID] if own and PARENT_UID not in prog["expectOwnerUids"] else [])
+            if g.owner_uids(body) != want_uids:
+                return "create-owner", (f"created object lists owners {g.owner_uids(body)}; the template lists "
+                                        f"{prog['expectOwnerUids']} and the parent {'is' if own else 'is not'} to be added")
         if e["method"] == "POST":
             has = PARENT_UID in g.owner_uids(body)
             if own and not has:
@@ -358,11 +425,23 @@ def examine(ck: Check, prog: dict, b: dict, ans, label: str):
     if bad:
         clause, what = bad
         seen = sum(1 for v in ck.violations if v["case"].get("clause") == clause)
-        if seen >= 3:
+        if "sharedSequence" in prog:
+            # only the whole sequence (one cache, several creates) means anything: cut it after the failing create
+            seq, i = prog["sharedSequence"]["case"], prog["sharedSequence"]["index"]
+            small_case = {"shared": copy.deepcopy(seq["shared"][:i + 1])}
+            again = shared_bad(small_case) if seen < 3 else None
+            if again is None:
+                small_case, again = seq, (clause, what)
+            if seen < 40:
+                ck.violate({"shared": small_case["shared"], "clause": again[0]}, again[1])
+            bad = None
+        elif seen >= 3:
             small = prog      # enough minimised examples of this clause already
         else:
             small = shrink(prog, clause)
-        if seen < 40:
+        if bad is None:
+            pass
+        elif seen < 40:
             ck.violate({"prog": small, "clause": clause}, what)
         else:
             ck.count(f"further-violations:{clause}")
@@ -390,8 +469,17 @@ def examine(ck: Check, prog: dict, b: dict, ans, label: str):
     if obs["raised"] and want is None:
         ck.count("raised-and-model-sends-nothing")
         return
+    if prog.get("fault") is not None and isinstance(mine, dict):
+        # the one mutating call was rejected: the model's request is that call, and the error propagates
+        ck.count(f"mutation-rejected-with:{prog['fault']}")
+        if not same_request(want, mine) or not obs["raised"]:
+            ck.disagree({"prog": prog}, want, {"request": mine, "raised": obs["raised"]},
+                        "rejected mutation: the one request sent / the error propagates")
+        return
     if obs["raised"] or not same_request(want, mine):
-        ck.disagree({"prog": prog}, want, {"request": mine, "raised": obs["raised"]},
+        case = {"shared": prog["sharedSequence"]["case"]["shared"], "index": prog["sharedSequence"]["index"]} \
+            if "sharedSequence" in prog else {"prog": prog}
+        ck.disagree(case, want, {"request": mine, "raised": obs["raised"]},
                     "request: method/address/whole body with decoded annotation")
 
 
@@ -435,6 +523,10 @@ def run(tier: str) -> int:
         ck.count("corpus-cases")
     built_first = []
     progs = [random_program(r, i) for i in range(n)]
+    for size, form in ((300_000, "inline"), (270_000, "ref"), (262_100, "inline")):
+        # unusually large targets (the stripped JSON is around / above 256 KiB): the annotation is there all the same
+        progs.append({"prefix": PREFIX, "namespaced": True, "tmplForm": form, "edits": [], "benign": [], "extra": {},
+                      "flags": {"owned": True, "policy": "patch"}, "bigField": size})
     for p in progs:
         q = copy.deepcopy(p)
         q["stored"] = None
@@ -450,9 +542,18 @@ def run(tier: str) -> int:
         for vlabel, obj in live_variants(r, p, post):
             q = copy.deepcopy(p)
             q["stored"] = obj
+            if r.random() < 0.2:
+                q["fault"] = r.choice((403, 403, 409, 422, 500))    # the server rejects the PATCH
             second.append((vlabel, q))
     work += second
     built += [g.run_program(p) for _, p in second]
+    # several functions rendering objects from ONE cached ResourceTemplate that lists owners of its own
+    n_shared = 40 if tier == "quick" else 400
+    for _ in range(n_shared):
+        case = shared_template_case(r)
+        for q, b in run_shared_template(case):
+            work.append(("shared-template", q))
+            built.append(b)
     try:
         answers = drv.ask([b["model"] for b in built])
     except Exception as e:
@@ -474,7 +575,11 @@ def run(tier: str) -> int:
              "another uid] | [other, that]; lists nested directly in lists (1-3 levels) with directive-bearing maps "
              "inside; ~15% of create overlays write metadata.ownerReferences (a co-owner) or a whole metadata map from inputs; ~12% of targets list owners themselves (the former F7 class, "
              "whose witness corpus/C08/target_owner_refs.json is replayed first), ~3% "
-             "have unusable annotations; non-trivial = the target carries directive keys and a POST or PATCH was sent; "
+             "have unusable annotations; 20% of the PATCH-path runs have the server reject the mutating call (403, 409, 422, "
+             "500: nothing else may follow, the error propagates); three unusually large targets (a 262-300 KB string "
+             "field); 40 sequences of 2-3 functions creating objects from ONE cached ResourceTemplate that lists owners "
+             "of its own (owning / not owning, other parents, parents elsewhere; the cache is not reset in between; the "
+             "created object's owner list must be the template's plus the parent iff owning and same namespace); non-trivial = the target carries directive keys and a POST or PATCH was sent; "
              "distinct by layer contents+scope+template form+live variant+method",
     )
 
@@ -483,6 +588,11 @@ def replay(path: str) -> int:
     data = json.load(open(path))
     rc = 0
     for v in data.get("violations", []):
+        if "shared" in v["case"]:
+            bad = shared_bad(v["case"])
+            print("replay (one cached template, several creates):", json.dumps(v["case"]["shared"])[:900], "::", bad)
+            rc = rc or (1 if bad else 0)
+            continue
         prog = v["case"]["prog"]
         b = g.run_program(prog)
         bad = oracle(prog, b)
